@@ -25,6 +25,8 @@ type CmImpl struct {
 	V2 bool
 	// Load loads the one-package program with the real loader and returns the universe snapshot.
 	Load func(prog *Program) (*USnap, error)
+	// LoadLater: the package is first seen as a dependency of package `first` and requested in a later, incremental load
+	LoadLater func(prog *Program, first, then string) (*USnap, error)
 }
 
 const cmPkgPath = "example.com/m/p"
@@ -547,6 +549,11 @@ func genCommentCase(r *RNG) ([]string, Meta) {
 	if len(wantPkg) > 0 {
 		ls = append(ls, Line("cm", "wantpkg"))
 	}
+	if r.Chance(1, 3) {
+		// the package is first loaded as a dependency of another one and requested later
+		ls = append(ls, Line("cm", "importer"))
+		g.feats["dependency-first-requested-later"] = true
+	}
 	feats := SortedKeys(g.feats)
 	feats = append(feats, fmt.Sprintf("files:%d", len(order)), fmt.Sprintf("decls:%d", len(g.intents)/4*4))
 	return ls, Meta{Nontrivial: len(g.intents) > 0, Features: feats}
@@ -585,7 +592,22 @@ func CommentsProperty(impl CmImpl) Property {
 			pk.Extra[n] = files[n]
 		}
 		prog := &Program{Module: "example.com/m", V2: impl.V2, Pkgs: []*ProgPkg{pk}}
-		snap, err := impl.Load(prog)
+		later := false
+		for _, l := range lines {
+			if Fields(l)[1] == "importer" {
+				later = true
+			}
+		}
+		var snap *USnap
+		var err error
+		if later && impl.LoadLater != nil {
+			q := &ProgPkg{Path: "example.com/m/q", Name: "q", File: "q.go", Imports: []string{cmPkgPath},
+				Source: "package q\n\nimport _ \"" + cmPkgPath + "\"\n\n// Q is here.\ntype Q int\n"}
+			prog.Pkgs = append(prog.Pkgs, q)
+			snap, err = impl.LoadLater(prog, q.Path, cmPkgPath)
+		} else {
+			snap, err = impl.Load(prog)
+		}
 		if err != nil || snap.Pkgs[cmPkgPath] == nil {
 			for i, l := range lines {
 				if op := Fields(l)[1]; op == "attr" || op == "doc" {
